@@ -344,8 +344,64 @@ func (rg *cpuRig) lockstep(cas *lsCase, pol lsPolicy) (st lsStats, sig string, e
 			return st, "", nil
 		}
 		if haltbug && op0 == 0xcb {
-			// how a CB prefix decodes under the halt bug is not asserted
+			// How a CB prefix decodes under the halt bug is open between two readings: the hardware reads
+			// the prefix twice (CB CB executes, then xx is fetched as an opcode), tetromino executes CB xx
+			// and then fetches xx again as an opcode. Either way the prefixed instruction runs once and
+			// execution resumes at the byte after the prefix; anything else is a violation.
 			st.End = "haltbug-before-cb"
+			if !pol.checkIRQ {
+				return st, "", nil
+			}
+			rd := func(a uint16) uint8 {
+				if lsPlain(a) || a < 0x8000 {
+					return m.Mp.Read(a)
+				}
+				return 0
+			}
+			candT := refcpu.Step(r, rd, false)
+			candH := refcpu.Step(r, func(a uint16) uint8 {
+				if a == r.PC+1 {
+					return 0xcb
+				}
+				return rd(a)
+			}, false)
+			candT.R.PC, candH.R.PC = r.PC+1, r.PC+1
+			for _, cd := range []*refcpu.Result{&candT, &candH} {
+				for _, a := range cd.Acc {
+					if !lsPlain(a.Addr) || a.Write && a.Addr-r.PC < 3 {
+						return st, "", nil
+					}
+				}
+			}
+			n := 0
+			for {
+				m.CPU.ExecuteMachineCycle()
+				n++
+				cyc++
+				if m.CPU.VerifAtBoundary() || n >= 10 {
+					break
+				}
+			}
+			got := cpuFromHook(m.CPU.VerifGet())
+			match := func(cd *refcpu.Result) bool {
+				if got != cd.R {
+					return false
+				}
+				for _, a := range cd.Acc {
+					if a.Write && m.Mp.Read(a.Addr) != cpuLastWrite(*cd, a.Addr) {
+						return false
+					}
+				}
+				return true
+			}
+			st.HaltBugs++
+			if !match(&candT) && !match(&candH) {
+				return st, "haltbug-cb-decoding", fmt.Errorf("cycle %d: HALT with IME=0 and a pending request followed by CB %02x at %04x: the CPU ended with %+v; neither reading of the halt bug gives that (prefix read twice: %+v; CB %02x then %02x again: %+v; before %+v)",
+					cyc-n, m.Mp.Read(r.PC+1), r.PC, got, candH.R, m.Mp.Read(r.PC+1), m.Mp.Read(r.PC+1), candT.R, r)
+			}
+			if m.CPU.VerifHaltbug() {
+				return st, "haltbug-cb-decoding", fmt.Errorf("cycle %d: the halt bug was not consumed by the CB-prefixed instruction at %04x: the instruction after it would be fetched twice", cyc-n, r.PC)
+			}
 			return st, "", nil
 		}
 		for _, a := range exp.Acc {
